@@ -407,29 +407,47 @@ def okAppend (n : Nat) (st1 : Strand) (a1 b1 : Int) (st2 : Strand) (a2 b2 : Int)
 
 /-! ### multi-operand operations over a pool of parent kinds -/
 
-/-- plain descriptor of a parent: present?, id, sequence type, sequence, grand-parent (numbers name distinct values) -/
-structure PD where
-  has : Bool
+/-- plain descriptor of one level of a parent chain (numbers name distinct values): id, sequence type, sequence, and
+    where the level below sits on this level (strand code, start, end) -/
+structure PL where
   id : Option Nat
   ty : Option Nat
   seq : Option Nat
-  gp : Option Nat
+  loc : Option (Nat × Nat × Nat)
   deriving DecidableEq
 
-/-- the pool (same order as `impl_validate.parent_kind`): none; id; id+type; id+other type; id+sequence; id+other
-    sequence; id+grand-parent A; id+grand-parent B; no id, type X; no id, type Y -/
-def parentKinds : List PD :=
-  [⟨false, none, none, none, none⟩, ⟨true, some 0, none, none, none⟩, ⟨true, some 0, some 0, none, none⟩,
-   ⟨true, some 0, some 1, none, none⟩, ⟨true, some 0, none, some 0, none⟩, ⟨true, some 0, none, some 1, none⟩,
-   ⟨true, some 0, none, none, some 0⟩, ⟨true, some 0, none, none, some 1⟩, ⟨true, none, some 2, none, none⟩,
-   ⟨true, none, some 3, none, none⟩]
+/-- a parent with its ancestors; `[]` = no parent.  The first level never carries a location: where the OPERAND sits on
+    its parent is the one thing the operations are allowed to ignore. -/
+abbrev PD := List PL
 
+/-- the pool (same order as `impl_validate.parent_kind`): none; id; id+type; id+other type; id+sequence; id+other
+    sequence; id+grand-parent A; id+grand-parent B; no id, type X; no id, type Y; then parents that sit on the SAME
+    grand-parent at [0,10)+ / [20,30)+ / [0,10)- (10-12), the same with a sequence on the parent (13, 14), and depth 3
+    with the grand-parent at two places of a great-grand-parent (15, 16) -/
+def parentKinds : List PD :=
+  [[], [⟨some 0, none, none, none⟩], [⟨some 0, some 0, none, none⟩], [⟨some 0, some 1, none, none⟩],
+   [⟨some 0, none, some 0, none⟩], [⟨some 0, none, some 1, none⟩],
+   [⟨some 0, none, none, none⟩, ⟨some 1, none, none, none⟩], [⟨some 0, none, none, none⟩, ⟨some 2, none, none, none⟩],
+   [⟨none, some 2, none, none⟩], [⟨none, some 3, none, none⟩],
+   [⟨some 0, none, none, none⟩, ⟨some 3, some 0, none, some (1, 0, 10)⟩],
+   [⟨some 0, none, none, none⟩, ⟨some 3, some 0, none, some (1, 20, 30)⟩],
+   [⟨some 0, none, none, none⟩, ⟨some 3, some 0, none, some (2, 0, 10)⟩],
+   [⟨some 0, none, some 0, none⟩, ⟨some 3, some 0, none, some (1, 0, 10)⟩],
+   [⟨some 0, none, some 0, none⟩, ⟨some 3, some 0, none, some (1, 20, 30)⟩],
+   [⟨some 0, none, none, none⟩, ⟨some 3, some 0, none, some (1, 0, 10)⟩, ⟨some 4, none, none, some (1, 0, 50)⟩],
+   [⟨some 0, none, none, none⟩, ⟨some 3, some 0, none, some (1, 0, 10)⟩, ⟨some 4, none, none, some (1, 100, 150)⟩]]
+
+/-- from_single_intervals: the chains must be identical -/
 def pdStrict (a b : PD) : Bool := decide (a = b)
 
-/-- `Parent.equals_except_location` is documented (DESIGN §3, C02/C04) to compare grand-parents only when both are
-    present: that much tolerance is accepted from the binary operations -/
-def pdTolerant (a b : PD) : Bool :=
-  a.has == b.has && a.id == b.id && a.ty == b.ty && a.seq == b.seq && (a.gp == b.gp || a.gp.isNone || b.gp.isNone)
+/-- the binary operations must refuse whenever the chains differ in anything (the first level has no location in a
+    descriptor) - except that an ancestor present on one side only is tolerated: `Parent.equals_except_location` is
+    documented (DESIGN §3, C02/C04) to compare ancestors only when both sides have one.  Compared levels must agree in
+    EVERY field, the location on the ancestor included. -/
+def pdTolerant : PD → PD → Bool
+  | [], [] => true
+  | x :: xs, y :: ys => decide (x = y) && (xs.isEmpty || ys.isEmpty || pdTolerant xs ys)
+  | _, _ => false
 
 def allPairs (p : PD → PD → Bool) : List PD → Bool
   | [] => true
@@ -449,7 +467,7 @@ inductive PRule where
 def pconsMustRefuse (r : PRule) (ks : List PD) : Bool :=
   match r with
   | .fsi => !allPairs pdStrict ks
-  | .mkpar => (match ks with | [a, b] => a.has && b.has && !pdTolerant a b | _ => false)
+  | .mkpar => (match ks with | [a, b] => !a.isEmpty && !b.isEmpty && !pdTolerant a b | _ => false)
   | .binary => (match ks with | [a, b] => !pdTolerant a b | _ => false)
 
 def okPcons (r : PRule) (ks : List PD) : GridOut → Bool
